@@ -57,8 +57,13 @@ def build_session(spans_types, distract, queries, text_len=12):
         sb.op(op="cas.add", h=h1, fs=l)
         shadow[h1].append((l, b, e, t))
     qmeta = []
-    for (kind, h, T, by, qb, qe) in queries:
-        i = sb.op(op="cas.select_" + kind, h=h, type=T if by != "short" else T.split(".")[-1], by=by, b=qb, e=qe)
+    for qi, (kind, h, T, by, qb, qe) in enumerate(queries):
+        o = dict(op="cas.select_" + kind, h=h, type=T if by != "short" else T.split(".")[-1], by=by, b=qb, e=qe)
+        # the span may be given by an annotation that is itself indexed (it must then be among the results like any other)
+        same = [l for (l, b, e, t) in shadow[h] if b == qb and e == qe]
+        if same and qi % 3 == 0:
+            o["span_fs"] = same[qi % len(same)]
+        i = sb.op(**o)
         sub = subtree(T)
         if kind == "covered":
             exp = [l for (l, b, e, t) in shadow[h] if t in sub and qb <= b and e <= qe]
